@@ -166,3 +166,13 @@ package server
 //@   at-return requires ret0 != nil && !ret0.IsWithdraw && peer.isIBGPPeer() && !ret0.IsLocal() ==> ret0.GetSource().AS != peer.AS() || ret0.GetSource().RouteReflectorClient || peer.isRouteReflectorClient()
 //@   at-return requires ret0 != nil && !ret0.IsWithdraw && !peer.isRouteServerClient() && isASLoop(peer, ret0) ==> ret0.IsLocal() && peer.allowAsPathLoopLocal()
 //@   at-return requires ret0 != nil && !ret0.IsWithdraw && peer.IsFamilyEnabled(bgp.RF_RTC_UC) && ret0.GetFamily() != bgp.RF_RTC_UC ==> peer.interestedIn(ret0)
+
+// =============================================================================================
+// C14 - where the conversions for a 2-octet-AS peer are invoked
+// =============================================================================================
+//@ props C14
+// UpdatePathAggregator2ByteAs rewrites attribute-list entries in place; the list it works on must be the private
+// copy UpdatePathAttrs2ByteAs makes first (the packer shares one attribute list among all UPDATEs of a batch)
+//@ func (*fsmHandler).sendMessageloop$1
+//@   claims at-call
+//@   at-call table.UpdatePathAggregator2ByteAs( requires called(UpdatePathAttrs2ByteAs)
